@@ -105,8 +105,6 @@ def get_cascade() -> list[tuple[str, str]]:
                  and isinstance(n.target, ast.Name) and n.target.id == "line"), None)
     if loop is None:
         raise ValueError("`for line in source` loop not found")
-    chains = [n for n in loop.body if isinstance(n, ast.If) and "CALL_RE" in ast.unparse(n.test) + "".join(
-        ast.unparse(x) for x in ast.walk(n) if isinstance(x, ast.If))]
     # the cascade is the top-level `if` of the loop whose elif chain contains CALL_RE
     casc = None
     for top in [n for n in loop.body if isinstance(n, ast.If)]:
